@@ -675,13 +675,59 @@ def in_process_correspondence(c, vdriver, vmodel, docs, bits, work, quick):
     if bits[3] == '1' and esc_ok != len(names):
         bad = next((n, a, b) for n, a, b in zip(names, full, mo) if a != b)
         failures.append('escapeMacro(%r): implementation %s, model %s' % bad)
+    # the output of a transformation must not depend on what the process transformed before: every in-process output
+    # (a driver process works through many different documents) against the output of a process that transformed
+    # this document only; and pairs of documents of the same shape (same layout, other targets) alternating in one
+    # process, which is when a later document is allocated at the addresses of a released one
+    def fresh(job):
+        i, be, xml = job
+        outf = os.path.join(work, 'fr-%s-%s.txt' % (i, be))
+        rc, o, e = run_lines(vdriver, ['dettr %s %s %s %s' % (be, hexs('file://' + os.path.join(work, 'd%s' % i, 'anonymous.scxml')), hexs(xml.encode('utf-8')), hexs(outf))], timeout=120)
+        try:
+            return (i, be), open(outf, 'rb').read()
+        except OSError:
+            return (i, be), None
+    pairs = []
+    for k, (ta, tb) in enumerate([('s2', 's3'), ('s3', 's1')]):
+        def doc(t1, t2):
+            return ('<scxml xmlns="http://www.w3.org/2005/07/scxml" version="1.0" datamodel="promela" name="pair" initial="p">'
+                    '<parallel id="p"><state id="r1"><state id="s1"><transition event="e" target="%s"/></state><state id="s2"><transition event="f" target="%s"/></state>'
+                    '<state id="s3"/></state><state id="r2"><state id="q1"><transition event="e" target="out"/></state></state></parallel><state id="out"/></scxml>' % (t1, t2))
+        pairs.append(('pa%d' % k, doc(ta, tb)))
+        pairs.append(('pb%d' % k, doc(tb, 'out')))
+    plines, pmeta = [], []
+    for rep in range(6):
+        for name, xml in pairs:
+            for be in ('c', 'pml', 'vhdl'):
+                outf = os.path.join(work, 'pp-%s-%s-%d.txt' % (name, be, rep))
+                plines.append('dettr %s %s %s %s' % (be, hexs('file://' + os.path.join(work, 'd%s' % name, 'anonymous.scxml')), hexs(xml.encode('utf-8')), hexs(outf)))
+                pmeta.append((name, be, outf))
+    run_lines(vdriver, plines, timeout=600)      # one process, in this order
+    refjobs = [(i, be, docs[i]['xml']) for (i, be, rep, outf) in meta if rep == 0][:(90 if quick else 600)] + [(n, be, x) for n, x in pairs for be in ('c', 'pml', 'vhdl')]
+    with concurrent.futures.ThreadPoolExecutor(max_workers=NCPU) as ex:
+        ref = dict(ex.map(fresh, refjobs))
+    hist_dep = 0
+    compared = 0
+    for key, outf in [((i, be), outf) for (i, be, rep, outf) in meta] + [((n, be), outf) for (n, be, outf) in pmeta]:
+        if ref.get(key) is None:
+            continue
+        try:
+            text = open(outf, 'rb').read()
+        except OSError:
+            continue
+        compared += 1
+        if text != ref[key]:
+            hist_dep += 1
+            if hist_dep == 1:
+                failures.append('HISTORY-DEPENDENT OUTPUT: back-end %s, document %s: the text written after other documents had been transformed in the same process differs from the text of a process that transformed this document only (%s)'
+                                % (key[1], key[0], first_diff_region(text, ref[key])))
     for cr in crashes:
         failures.append('vdriver crashed during in-process transformation (rc=%s): %s' % (cr[1], cr[2][-300:]))
     # hashing of the printed pointer <=> variant bit
     ptr_hashed = md5_checked > 0 and md5_ptr == md5_checked
     if (bits[0] == '1') != ptr_hashed and md5_checked:
         failures.append('what ChartToC hashes: model variant says pointer=%s, %d of %d observed md5 values are md5(printed pointer)' % (bits[0] == '1', md5_ptr, md5_checked))
-    return {'evaluations': len(lines) + len(mlines) + 3 * len(names), 'failures': failures, 'in_process_transformations': len(lines),
+    return {'evaluations': len(lines) + len(mlines) + 3 * len(names) + len(plines) + len(refjobs), 'outputs_compared_with_fresh_process': compared, 'history_dependent_outputs': hist_dep, 'failures': failures, 'in_process_transformations': len(lines),
             'md5_is_md5_of_printed_pointer': '%d/%d' % (md5_ptr, md5_checked), 'model_agrees': agree, 'model_cases': len(mlines),
             'escapeMacro_agree': '%d/%d' % (esc_ok, len(names)),
             'std_hash_byte_samples': {n.decode('latin-1'): h for n, h in list(zip(names, hb))[:6]}}
